@@ -106,8 +106,25 @@ func genC04(seed uint64, tier string) *plan.Plan {
 		}
 		ph.Clients = append(ph.Clients, sc)
 	}
+	if r.Bool(500) {
+		// filler traffic on other keys of the DMap: fragments grow to several tables, overwritten
+		// versions become garbage and compaction moves live entries between tables on every copy
+		fl := plan.Script{ID: 9, Kind: "cc"}
+		for i, nf := 0, r.Range(30, 150); i < nf; i++ {
+			vn++
+			fl.Ops = append(fl.Ops, plan.Op{K: "put", Key: fmt.Sprintf("f%d", r.Intn(24)), Val: fmt.Sprintf("fill-%d-%s", vn, "xxxxxxxxxxxxxxxxxxxxxxxx"[:r.Intn(24)]), D: int64(Pick(r, 0, 200, 5000))})
+		}
+		ph.Clients = append(ph.Clients, fl)
+	}
 	p.Params["probe_after_each"] = 1
 	p.Phases = []plan.Phase{ph}
+	// once the chains are done and background work (compaction, eviction) has had time to run, the
+	// copies are compared once more
+	settle := plan.Script{ID: 42, Kind: "ctl", Ops: []plan.Op{{K: "ctl.sleep", Dur: int64(Pick(r, 100, 600, 2500))}}}
+	for c := 1; c <= nchains; c++ {
+		settle.Ops = append(settle.Ops, plan.Op{K: "ctl.copies", Key: fmt.Sprintf("k%d", c), Tag: "settled"})
+	}
+	p.Phases = append(p.Phases, plan.Phase{Name: "settled-census", Clients: []plan.Script{settle}})
 	// Bursts: several clients work on the SAME key concurrently (atomic operations queue on the
 	// owner's key lock while plain writes overtake them); the copies are compared once everything
 	// has been acknowledged. One census per burst, 1-3 bursts.
@@ -176,6 +193,9 @@ func oracleC04(p *plan.Plan, his []plan.Rec, res *plan.Result) {
 		}
 		if r.Op.Tag == "burst" {
 			r.Info = "burst (concurrent operations on the key)"
+		}
+		if r.Op.Tag == "settled" {
+			r.Info = "settled (all chains done, background work has run)"
 		}
 		var prim *plan.Copy
 		for j := range r.Copies {
